@@ -15,14 +15,23 @@ Theorem C14_write_replaces : forall r v1 v2,
 Proof. exact write_silent_and_replaces. Qed.
 Print Assumptions C14_write_replaces.
 
-(* the delivery half of the property ("every line printed while the alt screen is not active appears") is FALSE of the
-   faithful model, and of the code (finding F20, open): a line printed on the main screen, the alt screen entered before
-   the next flush, then Stop - the line is still in the queue afterwards and none of its characters was ever written *)
-Definition c14_lost_line_history : list rop :=
-  [OResize 10 4; OWrite [118%N]; OFlush; OPrint [76%N; 79%N; 71%N]; OEnterAlt; OWrite [118%N]; OStop].
-Theorem C14_delivery_refuted :
-  let '(r, outs) := r_run r_init c14_lost_line_history in
-  r_queued r = [[76%N; 79%N; 71%N]] /\
-  forallb (fun k => match k with TChar 76%N => false | _ => true end) (concat outs) = true.
-Proof. vm_compute. split; reflexivity. Qed.
-Print Assumptions C14_delivery_refuted.
+(* delivery across EnterAltScreen (finding F20, repaired): a line printed on the main screen is written out before the
+   switch to the alt screen - enterAltScreen flushes when lines are queued - so it is not lost when the program ends
+   while still in the alt screen.  The model's enterAltScreen = (flush when lines are queued and the main screen is
+   active) then the switch; whenever a frame is pending (the event loop writes the view after every message, so one is)
+   the queue is empty afterwards. *)
+Theorem C14_enter_alt_writes_queued_lines : forall r,
+  r_alt r = false -> r_buf r <> [] -> r_lastRender r = [] ->
+  r_queued (fst (r_enter_alt r)) = [].
+Proof. exact enter_alt_writes_queued_lines. Qed.
+Print Assumptions C14_enter_alt_writes_queued_lines.
+
+Definition c14_line_before_alt_history : list rop :=
+  [OResize 10 4; OWrite [118%N]; OFlush; OPrint [76%N; 79%N; 71%N]; OWrite [118%N]; OEnterAlt; OWrite [118%N]; OStop].
+Example C14_line_before_alt_is_written :
+  let '(r, outs) := r_run r_init c14_line_before_alt_history in
+  r_queued r = [] /\
+  existsb (fun k => match k with TChar 76%N => true | _ => false end) (concat outs) = true /\
+  (* ... and it was written before the switch *)
+  existsb (fun k => match k with TChar 76%N => true | _ => false end) (nth 5 outs []) = true.
+Proof. vm_compute. repeat split. Qed.
